@@ -7,6 +7,7 @@ import OtelVerif.Lemmas.C02P
 import OtelVerif.Lemmas.C02Cond
 import OtelVerif.Lemmas.C02Cons
 import OtelVerif.Lemmas.C02Audit
+import OtelVerif.Gen.PQKeys
 /-!
 # C02 — sending queue: exactly-once hand-off, FIFO, bounded size, no lost wake-ups
 
@@ -802,6 +803,36 @@ theorem C02_persistent_no_request_waits_beside_parked_consumer (hr : PReachable 
   · exact Or.inl a
   · rw [hwk] at a
     exact Or.inr (List.length_eq_zero_iff.mp (by simpa using a))
+
+/-! ## persistent queue: request identity — item keys never collide with the queue's metadata keys
+
+The persistent model identifies a stored request by the id of its Offer ("storage is outside").  What that abstraction
+needs from the code is regenerated on every run (`Gen/PQKeys.lean`, translator `pqkeys`): the radix of `getItemKey` and the
+four metadata key names that share the key space with the items. -/
+
+theorem itemKey_ne_of_nondigit (radix i : Nat) (h0 : 0 < radix) (h : radix ≤ 10) (key : String) (c : Char) (cs : List Char)
+    (hk : key.toList = c :: cs) (hc : c.isDigit = false) : itemKey radix i ≠ key := by
+  intro e
+  have hl : (itemKey radix i).toList = Nat.toDigits radix i := by simp [itemKey]
+  rw [e, hk] at hl
+  have := Nat.isDigit_of_mem_toDigits h0 h (c := c) (by rw [← hl]; simp)
+  rw [hc] at this; cases this
+
+/-- for EVERY index, the key under which a request is stored is none of "ri", "wi", "di", "si" (as the code names them
+now): a request is never written over the queue's read/write index, its dispatched-items list or its size snapshot, and
+none of those is ever decoded as a request.  Breaks (no longer type-checks) when the radix exceeds 10 or a metadata key
+becomes a digit string. -/
+theorem C02_item_keys_never_collide_with_metadata (i : Nat) :
+    itemKey Gen.PQKeys.itemKeyRadix i ≠ Gen.PQKeys.readIndexKey ∧ itemKey Gen.PQKeys.itemKeyRadix i ≠ Gen.PQKeys.writeIndexKey ∧
+    itemKey Gen.PQKeys.itemKeyRadix i ≠ Gen.PQKeys.dispatchedKey ∧ itemKey Gen.PQKeys.itemKeyRadix i ≠ Gen.PQKeys.queueSizeKey := by
+  refine ⟨?_, ?_, ?_, ?_⟩
+  · exact itemKey_ne_of_nondigit _ i (by decide) (by decide) _ _ _ (by decide : Gen.PQKeys.readIndexKey.toList = 'r' :: ['i']) (by decide)
+  · exact itemKey_ne_of_nondigit _ i (by decide) (by decide) _ _ _ (by decide : Gen.PQKeys.writeIndexKey.toList = 'w' :: ['i']) (by decide)
+  · exact itemKey_ne_of_nondigit _ i (by decide) (by decide) _ _ _ (by decide : Gen.PQKeys.dispatchedKey.toList = 'd' :: ['i']) (by decide)
+  · exact itemKey_ne_of_nondigit _ i (by decide) (by decide) _ _ _ (by decide : Gen.PQKeys.queueSizeKey.toList = 's' :: ['i']) (by decide)
+
+/-- the key is the decimal form of the index -/
+example : itemKey Gen.PQKeys.itemKeyRadix 486 = "486" ∧ itemKey Gen.PQKeys.itemKeyRadix 0 = "0" := by decide
 
 /-! ## the pinned cond.go (before the fix commit) deadlocks -/
 
